@@ -11,11 +11,21 @@ Observed(r) == [err |-> r.ret.err, id |-> ToSet(r.ret.id)]
 
 (* the identifier returned is the specified one, and what the code unpacked from it is   *)
 (* what the specification unpacks                                                         *)
-PackOK(r) == Observed(r) = Expected(CallOf(r))
-UnpackOK(r) == r.ret.err \/ r.unwrapped = ExpectedUnpack(r.kind, ToSet(r.ret.id))
+(* the array arguments were supplied in the integer types r.types (one per argument; ignored   *)
+(* for the scalar convention, which passes Python integers): each must be a type of the        *)
+(* specification that represents the supplied value, and the verdict does not depend on it      *)
+TypesOK(r) == r.conv = "scalar" \/ TypesAdmissible(r.kind, r.f, r.types)
+PackOK(r) == Observed(r) = ExpectedAs(CallOf(r), r.types)
+UnpackOK(r) == r.ret.err \/ r.unwrapped = ExpectedUnpackAs(r.kind, ToSet(r.ret.id), r.form)
+(* the recorded element sat at position pos of array arguments of length len (1 for the scalar   *)
+(* convention) and the identifier was handed to the unpacking function in the form r.form; the   *)
+(* specification declares all three irrelevant (PositionIndependent, IdFormIndependent), so the  *)
+(* verdict is the one for the element alone                                                      *)
+ShapeOK(r) == r.form \in IdForms /\ r.len >= 1 /\ r.pos \in 0 .. (r.len - 1) /\ TypesOK(r)
 
 Init == /\ i \in 1..Len(Recs)
-        /\ ok = (PackOK(Recs[i]) /\ UnpackOK(Recs[i]))
-        /\ why = IF ~PackOK(Recs[i]) THEN "pack" ELSE IF ~UnpackOK(Recs[i]) THEN "unpack" ELSE ""
+        /\ ok = (ShapeOK(Recs[i]) /\ PackOK(Recs[i]) /\ UnpackOK(Recs[i]))
+        /\ why = IF ~ShapeOK(Recs[i]) THEN "shape" ELSE IF ~PackOK(Recs[i]) THEN "pack"
+                 ELSE IF ~UnpackOK(Recs[i]) THEN "unpack" ELSE ""
 Next == UNCHANGED <<i, ok, why>>
 =============================================================================
